@@ -140,3 +140,9 @@ Theorem csc_roundtrip : forall nl nc es, 0 <= nl -> 0 <= nc -> sorted_keys es ->
   read_csc (write_csc nl nc es) = Ok (OSparse nl nc es).
 Proof. exact CscCodecProofs.csc_roundtrip. Qed.
 Print Assumptions csc_roundtrip.
+
+(* the format a file name selects: the suffix after the LAST dot of the path, whatever dots come before it
+   (dotted directories, "./", dotted base names) *)
+Theorem format_from_last_suffix : forall pre ext, ~ In 46 ext -> fmt_of_path (pre ++ 46 :: ext) = fmt_of_suffix (suffix_class ext).
+Proof. exact IOFrontProofs.format_from_last_suffix. Qed.
+Print Assumptions format_from_last_suffix.
